@@ -111,6 +111,11 @@ type Run struct {
 	obs       []string
 	freshN    int
 	enginePanic interface{}
+	raceOn   bool
+	objVC    map[interface{}]VC
+	watch    map[*Value]*watchCell
+	races    []string
+	raceSeen map[string]bool
 }
 
 type InputMeta struct {
